@@ -4,6 +4,7 @@ use std::sync::atomic::{AtomicBool, Ordering};
 use std::sync::Arc;
 use std::thread::Result;
 
+use crate::cancel::CancelDisableGuard;
 use crate::coroutine_impl::Coroutine;
 use crate::sync::{AtomicOption, Blocker};
 use generator::Error;
@@ -45,14 +46,24 @@ impl Join {
     }
 
     fn wait(&self) {
-        if self.state.load(Ordering::Acquire) {
+        // a park that returns is not a proof that the coroutine is done, it returns
+        // early with `Canceled` (and without a Cancel panic) when the waiter is canceled
+        // while it's already unwinding or while its cancel is disabled.
+        // so only leave when the state is observed as false
+        let mut no_cancel = None;
+        while self.state.load(Ordering::Acquire) {
             let cur = Blocker::current();
             // register the blocker first
             self.to_wake.store(cur.clone());
             // re-check the state
             if self.state.load(Ordering::Acquire) {
                 // successfully register the blocker
-                cur.park(None).ok();
+                if cur.park(None).is_err() && no_cancel.is_none() {
+                    // we are canceled but not allowed to panic, the following parks
+                    // would all return at once if the cancel bit is visible, disable
+                    // the cancel for the rest of the wait so that we really block
+                    no_cancel = Some(CancelDisableGuard::new());
+                }
             } else {
                 self.to_wake.take();
             }
